@@ -82,6 +82,7 @@ type Point struct {
 	N          int  // number of alternatives
 	Chosen     int  // index taken
 	Env        bool // environment choice (no preemption cost)
+	EnvCost    bool // environment choice whose non-default alternatives count against the deviation bound
 	CurEnabled bool // scheduling choice made while the running thread was still enabled
 	Tid        int  // thread chosen (sched) or asking (env)
 }
@@ -646,6 +647,26 @@ func Quiesce() {
 		return
 	}
 	s.park(th, op{kind: opQuiesce})
+}
+
+// ChooseCost is an environment choice whose non-default alternatives each
+// cost one unit of the deviation bound (e.g. "this read returns short").
+func ChooseCost(n int) int {
+	s, th := current()
+	if s == nil || n <= 1 {
+		return 0
+	}
+	c := s.nextChoice(n, true, false, th.ID)
+	s.Points[len(s.Points)-1].EnvCost = true
+	if c >= n {
+		s.Diverged = "env choice out of range"
+		return 0
+	}
+	if c > 0 {
+		s.preempts++
+	}
+	th.h = mix(mix(th.h, 9), uint64(c))
+	return c
 }
 
 // Choose is an environment choice with n alternatives (0 is the default).
